@@ -113,6 +113,9 @@ func Generate(rng *rand.Rand, i int, thorough bool) *p2prig.Scenario {
 		honest.VersionLag = 1 + rng.Intn(5) // the honest peer finds blocks while the service syncs from it
 	}
 	honest.IgnoreStop = i%5 == 4 // "all that remain or at most 2000": the answer does not end at the stop hash
+	if i%6 == 5 || i%12 == 4 {
+		honest.ProtoVer = 70011 // an older peer: no sendheaders, so it announces by inv whatever the service asks for
+	}
 	linear := true
 	nPeers := 1
 	if s.Engine == "legacy" {
